@@ -16,7 +16,7 @@ EXTENDS JsonPatch
 (* pointer -> path: a token that is a canonical index is read as an index, "-" as -1;    *)
 (* the weird number-like keys ("01", "+1") are also read as numbers by strconv.Atoi -    *)
 (* their value is not modelled: ReadableTok excludes them                                *)
-ReadableTok(t) == t.i >= 0 \/ t.i = -2 \/ KeyClass(t.s) \notin {"weird", "num"}
+ReadableTok(t) == t.i >= 0 \/ t.i = -2 \/ (KeyClass(t.s) \notin {"weird", "num"} /\ t.s \notin {"00", "01", "02", "03", "04", "05"})
 ElemOfTok(t) == IF t.i >= 0 THEN PIdx(t.i) ELSE IF t.i = -2 THEN PIdx(-1) ELSE PKey(t.s)
 PathOfPtr(p) == [i \in DOMAIN p |-> ElemOfTok(p[i])]
 Readable(ops) == \A i \in DOMAIN ops : ops[i].wf /\ \A j \in DOMAIN ops[i].path : ReadableTok(ops[i].path[j])
